@@ -13,11 +13,12 @@ type sampler struct {
 	alpha []rune
 	out   []byte
 	nodes int
+	hs    []*Expr // enclosing recovery operators
 }
 
-func (s *sampler) intn(lo, hi int, l string) int { return rapid.IntRange(lo, hi).Draw(s.t, l) }
+func (s *sampler) intn(lo, hi int, l string) int { return lo + U(s.t, hi-lo+1, l) }
 
-func (s *sampler) rune_() rune { return rapid.SampledFrom(s.alpha).Draw(s.t, "irune") }
+func (s *sampler) rune_() rune { return Pick(s.t, s.alpha, "irune") }
 
 func flipCase(r rune) rune {
 	if unicode.IsLower(r) {
@@ -65,7 +66,7 @@ func (s *sampler) classPick(e *Expr) rune {
 	if e.Inv || len(cands) == 0 || s.intn(0, 9, "classmiss") == 0 {
 		return s.rune_()
 	}
-	r := rapid.SampledFrom(cands).Draw(s.t, "classmember")
+	r := Pick(s.t, cands, "classmember")
 	if e.IC && s.intn(0, 1, "classflip") == 1 {
 		r = flipCase(r)
 	}
@@ -112,11 +113,11 @@ func (s *sampler) walk(e *Expr, depth int) {
 		}
 		s.walk(e.Sub[i], depth)
 	case KOpt:
-		if s.intn(0, 1, "opt") == 1 {
+		if s.intn(0, 9, "opt") < 7 {
 			s.walk(e.Sub[0], depth+1)
 		}
 	case KStar, KPlus:
-		n := s.intn(0, 3, "reps")
+		n := []int{0, 1, 1, 1, 1, 2, 2, 2, 3, 3}[s.intn(0, 9, "reps")]
 		if e.K == KPlus && n == 0 {
 			n = 1
 		}
@@ -129,12 +130,33 @@ func (s *sampler) walk(e *Expr, depth int) {
 	case KLabel, KAction:
 		s.walk(e.Sub[0], depth)
 	case KRecover:
+		s.hs = append(s.hs, e)
 		s.walk(e.Sub[0], depth)
-		if s.intn(0, 2, "recwalk") == 0 {
-			s.walk(e.Sub[1], depth+1)
-		}
+		s.hs = s.hs[:len(s.hs)-1]
 	case KThrow:
-		// the handler's recovery expression usually consumes something: emit junk sometimes
+		// continue with what the innermost handler of the label expects (sometimes with the
+		// next outer one, so that the inner handler has to fail first)
+		skip := 0
+		if s.intn(0, 4, "throwouter") == 0 {
+			skip = 1
+		}
+		for i := len(s.hs) - 1; i >= 0; i-- {
+			match := false
+			for _, l := range s.hs[i].Labels {
+				match = match || l == e.Name
+			}
+			if !match {
+				continue
+			}
+			if skip > 0 {
+				skip--
+				continue
+			}
+			if depth < 10 {
+				s.walk(s.hs[i].Sub[1], depth+1)
+			}
+			return
+		}
 		if s.intn(0, 1, "throwjunk") == 1 {
 			s.out = utf8.AppendRune(s.out, s.rune_())
 		}
@@ -148,24 +170,24 @@ func SampleInput(t *rapid.T, g *Grammar, entry string, alphabet []rune, maxLen i
 	mode := s.intn(0, 99, "inputmode")
 	var out []byte
 	switch {
-	case mode < 60:
+	case mode < 75:
 		r := g.Rule(entry)
 		if r == nil {
 			r = g.Rules[0]
 		}
 		s.walk(r.Expr, 0)
 		out = s.out
-		ne := s.intn(0, 3, "nedits")
+		ne := []int{0, 0, 0, 0, 0, 1, 1, 1, 2, 3}[s.intn(0, 9, "nedits")]
 		for i := 0; i < ne; i++ {
 			out = edit(s, out)
 		}
-	case mode < 85:
+	case mode < 92:
 		n := s.intn(0, 8, "randlen")
 		for i := 0; i < n; i++ {
 			out = utf8.AppendRune(out, s.rune_())
 		}
 	default:
-		out = []byte(rapid.SampledFrom([]string{"", "\n", "\n\n", "a", "é", "日😀", "\na", "a\n", " ", "aaaaaaaaaaaa", "abcabcabc", "0", "\t"}).Draw(t, "boundary"))
+		out = []byte(Pick(t, []string{"", "\n", "\n\n", "a", "é", "日😀", "\na", "a\n", " ", "aaaaaaaaaaaa", "abcabcabc", "0", "\t"}, "boundary"))
 	}
 	if len(out) > maxLen {
 		out = out[:maxLen]
@@ -212,10 +234,10 @@ func edit(s *sampler, in []byte) []byte {
 // InvalidUTF8Edit inserts or substitutes invalid byte sequences (C17).
 func InvalidUTF8Edit(t *rapid.T, in []byte) []byte {
 	bad := [][]byte{{0xff}, {0x80}, {0xc3}, {0xe6, 0x97}, {0xf0, 0x9f, 0x98}, {0xc0, 0xaf}, {0xed, 0xa0, 0x80}, {0xf8, 0x88, 0x80, 0x80, 0x80}, {0xef, 0xbf, 0xbd}, {0xfe}, {0xe0, 0x80}}
-	n := rapid.IntRange(1, 3).Draw(t, "nbad")
+	n := 1 + U(t, 3, "nbad")
 	out := append([]byte{}, in...)
 	for i := 0; i < n; i++ {
-		b := rapid.SampledFrom(bad).Draw(t, "badseq")
+		b := Pick(t, bad, "badseq")
 		// insert at a rune boundary of the current string
 		var bounds []int
 		for j := 0; j <= len(out); {
@@ -226,7 +248,7 @@ func InvalidUTF8Edit(t *rapid.T, in []byte) []byte {
 			_, w := utf8.DecodeRune(out[j:])
 			j += w
 		}
-		p := rapid.SampledFrom(bounds).Draw(t, "badpos")
+		p := Pick(t, bounds, "badpos")
 		out = append(out[:p:p], append(append([]byte{}, b...), out[p:]...)...)
 	}
 	return out
